@@ -167,4 +167,24 @@ Return   == [][(out'.op = "allow" /\ mode = "redis" /\ alive) => out'.via = "red
 \* the limiter goes back to Redis only through a successful ping, and pings only while Redis answers
 OnlyPingReturns == [][(mode = "rescue" /\ mode' = "redis") => (out'.op = "ping" /\ alive)]_vars
 
+\* At frozen clocks the deciding bucket is a counter: an Allow step grants iff the request fits into what is
+\* available and takes exactly the granted tokens from it.  Hence Allow steps between two clock steps commute
+\* (any order of the same grants and denials in which the denials come last is again a behaviour if one order
+\* is) - the reduction used by TokenLimitConc.tla for rounds with many grants.
+Avail == IF mode = "rescue" \/ ~alive THEN RescueFilled ELSE Filled
+AllowExact ==
+  [][out'.op = "allow" =>
+       /\ out'.granted = (Avail >= out'.n)
+       /\ Avail' = Avail - (IF out'.granted THEN out'.n ELSE 0)]_vars
+
+\* A denial leaves the deciding bucket at a fixpoint: the same request repeated at the same clocks is
+\* denied again and changes nothing any more.  (TokenLimitConc.tla relies on it to explain all equal
+\* denied requests of concurrent callers within one caller second in a single step.)
+DenialIdempotent ==
+  [][(out'.op = "allow" /\ ~out'.granted) =>
+       IF out'.via = "redis"
+         THEN /\ Filled' = tok' /\ Filled' < out'.n /\ ts' = now' /\ ttlx' = srv' + TTL'
+              /\ IdealFilled' = ib'.tok /\ ib'.last = now'
+         ELSE /\ RescueFilled' = rtok' /\ RescueFilled' < out'.n /\ rlast' = now' /\ rused']_vars
+
 =============================================================================
